@@ -122,7 +122,13 @@ void doc_corrupt(std::vector<unsigned char> &b, Rng &r, const Layout *lay) {
     if (b.empty()) { b.push_back((unsigned char) r.below(256)); return; }
     size_t pos = (size_t) r.below(b.size());
     if (lay && !lay->toks.empty() && r.chance(1, 2)) { const Tok &t = lay->toks[r.below(lay->toks.size())]; pos = std::min(b.size() - 1, r.chance(1, 2) ? t.start : (t.end ? t.end - 1 : 0)); }   // near token boundaries (offsets approximate for non-ASCII text)
-    switch (r.below(9)) {
+    switch (r.below(10)) {
+        case 9: {
+            // an undecodable byte directly after a token (e.g. right behind the closing delimiter of a quoted string)
+            static const unsigned char U8BAD[] = { 0xff, 0xc0, 0xfe, 0x80, 0xf8 };
+            if (lay && !lay->toks.empty()) { const Tok &t = lay->toks[r.below(lay->toks.size())]; pos = std::min(b.size(), (size_t) t.end); }
+            b.insert(b.begin() + (long) pos, U8BAD[r.below(sizeof U8BAD)]); g_stats.inc("fault.corrupt.bad_byte_after_token"); break;
+        }
         case 7: case 8: {
             // a whole defective construct (the probes of the C12 check and relatives) spliced in between two tokens: several of them in one
             // document make the parser's recovery paths meet each other, which single-defect documents (C12) never do
